@@ -441,6 +441,35 @@ def r3f_for_each(text):
     return text, n
 
 
+def r4p_peekable(text):
+    """`let mut IT = E.iter().peekable(); while let Some(X) = IT.next() { .. IT.peek().is_some() .. }` -> indexed while
+    over the slice: `IT.peek().is_some()` is `index < len` (definition of Peekable<slice::Iter>)"""
+    n = 0
+    m = mask(text)
+    mo = re.search(r'let mut (' + _IDENT + r')\s*=\s*([^;]*?)\.iter\(\)\.peekable\(\);', m)
+    if not mo:
+        return text, 0
+    it = mo.group(1)
+    base = text[mo.start(2):mo.end(2)].strip()
+    if re.match(r'^self\.[A-Za-z_][A-Za-z0-9_.]*$', base):
+        base = '&' + base
+    head = 'let vx_pk = %s;\nlet mut vx_pi: usize = 0;' % base
+    text = text[:mo.start()] + head + text[mo.end():]
+    m = mask(text)
+    mo2 = re.search(r'while let Some\((' + _IDENT + r')\)\s*=\s*' + re.escape(it) + r'\.next\(\)\s*\{', m)
+    if not mo2:
+        raise ExtractError('R4P: `while let Some(x) = %s.next()` not found' % it)
+    x = mo2.group(1)
+    text = text[:mo2.start()] + 'while vx_pi < vx_pk.len() {\nlet %s = &vx_pk[vx_pi];\nvx_pi += 1;' % x + text[mo2.end():]
+    peek = '%s.peek().is_some()' % it
+    cnt = text.count(peek)
+    text = text.replace(peek, 'vx_pi < vx_pk.len()')
+    m = mask(text)
+    if re.search(r'(?<![A-Za-z0-9_])%s(?![A-Za-z0-9_])' % re.escape(it), m):
+        raise ExtractError('R4P: other uses of the peekable iterator `%s` remain' % it)
+    return text, 1 + cnt
+
+
 def r5_mut_self(text):
     """`fn f(mut self, ..) { B }` -> `fn f(self, ..) { let mut vx_self = self; B[self := vx_self] }`"""
     m = mask(text)
@@ -828,6 +857,7 @@ RULES = {
     'R6P': r6p_position,
     'R3V': r3v_for_vec,
     'R11': r11_events_commit,
+    'R4P': r4p_peekable,
     'R3F': r3f_for_each,
     'R3': r3_enumerate,
     'R3M': r3m_enumerate_mut,
